@@ -92,17 +92,20 @@ class C32(Check):
         "simulator-chosen order, some of them twice (retry) and some after a stale output or "
         "error file of another attempt exists; results are read back with parse_job_result / "
         "parse_job_error and compared with calling the task locally; job reuniting is checked with "
-        "generated job names, prefixes and hashes; a case is (job set, element order, retries); "
+        "generated job names, prefixes and hashes, and with a fake 'jobs in flight' listing "
+        "(single jobs, partially finished arrays listed in shuffled order, foreign jobs, a lost "
+        "eval-hash file) fed to the real AWSBatchExecutor.gather_inflight_jobs; a case is (job set, element order, retries); "
         "non-trivial = an array with >= 2 elements ran out of order or an element ran twice"
     )
     ASSUMPTIONS = ["worker nodes run in-process (no container); scratch is a local tmpfs directory"]
     COMPONENTS_REAL = ["redun.executors.scratch (write_array_job_scratch_files, parse_job_result, "
                        "parse_job_error)", "redun.executors.command.get_oneshot_command",
                        "redun.cli.RedunClient.oneshot_command", "redun.job_array.get_job_array_index",
-                       "aws_batch.get_batch_job_name / get_hash_from_job_name / is_array_job_name"]
+                       "aws_batch.get_batch_job_name / get_hash_from_job_name / is_array_job_name",
+                       "AWSBatchExecutor.gather_inflight_jobs"]
     COMPONENTS_STUB = ["Job objects: minimal fakes", "the remote service itself (no Batch / K8S)"]
     EXPECTED_PROBES = ["array_elements_run", "single_jobs_run", "retries", "errors_round_tripped",
-                       "job_names_checked"]
+                       "job_names_checked", "reunited_jobs"]
     QUICK_SECONDS = 25.0
 
     def setup(self) -> None:
@@ -215,7 +218,7 @@ class C32(Check):
                 return False
             return True
 
-        mode = ch.choice(3, "mode")
+        mode = ch.choice(4, "mode")
         if mode == 0:
             # ---- single jobs -------------------------------------------------------
             jobs = [make_job(i) for i in range(1 + ch.choice(3, "njobs"))]
@@ -267,6 +270,10 @@ class C32(Check):
             for job in jobs:
                 if not compare(job, "array"):
                     break
+        elif mode == 3:
+            # ---- reuniting with in-flight jobs: the restarted scheduler node lists what the
+            # service still runs and must map every in-flight element back to its eval hash ------
+            self.reunite(ch, out, scratch, make_job, log)
         else:
             # ---- job names / reuniting ------------------------------------------------------
             for _ in range(6):
@@ -285,8 +292,99 @@ class C32(Check):
         out.steps = len(log)
         out.key = hashlib.sha1(repr(log).encode()).hexdigest()[:16] + str(mode)
         out.digest = out.key
-        out.sample = {"mode": ["single", "array", "names"][mode], "log": log[:12]}
+        out.sample = {"mode": ["single", "array", "names", "reunite"][mode], "log": log[:12]}
         return out
+
+    def reunite(self, ch: Choices, out: RunOutcome, scratch: str, make_job, log: list) -> None:
+        """A previous scheduler submitted single and array jobs and died; the listing API (fake)
+        shows a simulator-chosen subset still in flight (array elements individually); the real
+        AWSBatchExecutor.gather_inflight_jobs must reunite exactly those, each under its own
+        eval hash."""
+        import types
+
+        import redun.executors.aws_batch as m
+        from redun.config import Config
+        from redun.executors.aws_batch import get_batch_job_name
+        from redun.executors.scratch import write_array_job_scratch_files
+
+        prefix = ["redun-job", "my-prefix", "a-b", "x"][ch.choice(4, "prefix")]
+        listing = []          # what get_jobs(inflight) returns
+        children = {}         # array job id -> in-flight children
+        want = {}             # eval hash -> service job id
+        universe = set()      # every evaluation hash the previous scheduler submitted
+        nid = [0]
+
+        def new_id():
+            nid[0] += 1
+            return f"svc-{nid[0]:03d}"
+
+        for i in range(ch.choice(4, "n-single")):
+            job = make_job(i)
+            universe.add(job.eval_hash)
+            jid = new_id()
+            if ch.coin(0.7, "single-inflight"):
+                listing.append({"jobId": jid, "jobName": get_batch_job_name(prefix, job.eval_hash)})
+                want[job.eval_hash] = jid
+            log.append(("single", job.eval_hash))
+        for a in range(ch.choice(3, "n-arrays")):
+            n = 2 + ch.choice(4, "array-n")
+            jobs = [make_job(100 * (a + 1) + i) for i in range(n)]
+            universe.update(j.eval_hash for j in jobs)
+            array_uuid = hashlib.sha1(f"arr{a}-{ch.choice(1000, 'uuid')}".encode()).hexdigest()[:32]
+            lost_file = ch.coin(0.15, "hash-file-lost")
+            if not lost_file:
+                write_array_job_scratch_files(jobs, scratch, array_uuid, include_eval_hash=True)
+            ajid = new_id()
+            kids = []
+            for i in ch.shuffle(list(range(n)), "child-order"):
+                if ch.coin(0.6, "child-inflight"):
+                    cid = f"{ajid}:{i}"
+                    kids.append({"jobId": cid, "arrayProperties": {"index": i}})
+                    if not lost_file:
+                        want[jobs[i].eval_hash] = cid
+            if kids or ch.coin(0.5, "list-empty-array"):
+                listing.append({"jobId": ajid,
+                                "jobName": get_batch_job_name(prefix, array_uuid, array=True)})
+                children[ajid] = kids
+            log.append(("array", n, sorted(k["arrayProperties"]["index"] for k in kids), lost_file))
+            if len(kids) not in (0, n):
+                out.nontrivial = True
+        # foreign jobs in the same queue (not redun's): must be ignored, never crash the restart
+        for _ in range(ch.choice(3, "n-foreign")):
+            listing.append({"jobId": new_id(),
+                            "jobName": ["other-team-job", "redun", "x-array"][ch.choice(3, "fname")]})
+        listing = ch.shuffle(listing, "listing-order")
+        saved = m.aws_utils
+        m.aws_utils = types.SimpleNamespace(
+            get_aws_user=lambda *a, **k: "user", get_default_region=lambda: "us-west-2",
+            get_aws_client=lambda *a, **k: None)
+        try:
+            cfg = Config({"ex": {"image": "img", "queue": "q", "s3_scratch": scratch,
+                                 "code_package": "False", "default_batch_tags": "False",
+                                 "aws_region": "us-west-2"}})
+            ex = m.AWSBatchExecutor("ex", scheduler=None, config=cfg["ex"])
+            ex.get_jobs = lambda statuses=None: iter(listing)
+            ex.get_array_child_jobs = lambda job_id, statuses=None: list(children.get(job_id, []))
+            try:
+                ex.gather_inflight_jobs()
+                got = dict(ex.preexisting_batch_jobs)
+            except Exception as e:
+                out.violate("C32.reunite", f"raises-{type(e).__name__}",
+                            {"error": repr(e)[:200], "listing": listing[:8], "log": log[-8:]})
+                return
+        finally:
+            m.aws_utils = saved
+        out.probe("reunited_jobs", len(want))
+        # "only pairs a job with an in-flight remote job created for the same evaluation hash":
+        # a pairing for one of our evaluation hashes must be the in-flight job made for it; entries
+        # under keys that are no evaluation hash of ours (foreign jobs) can never be looked up
+        wrong = sorted(h for h in want if h in got and got[h] != want[h])
+        not_inflight = sorted(h for h in universe if h in got and h not in want)
+        out.probe("reunite_missing", len(set(want) - set(got)))
+        if wrong or not_inflight:
+            out.violate("C32.reunite", "wrong-job" if wrong else "paired-with-job-not-in-flight",
+                        {"wrong": [(h, got[h], want[h]) for h in wrong[:4]],
+                         "not_inflight": [(h, got[h]) for h in not_inflight[:4]], "log": log[-8:]})
 
 
 CHECK = C32
